@@ -10,6 +10,9 @@
    of small messages and of the signature, truncation, extension, re-encoding of every header
    field, associated-data edits and re-splits, other keys, other key algorithms, forged unknown
    algorithm, moved boundary) to the real signed.Verify; TLC judges every attempt (SymCryptoTrace).
+   A second family runs Sign and Verify concurrently (8 goroutines signing different messages at once,
+   then 8 goroutines verifying untouched / touched messages at once, large associated data so that the
+   hashing phases overlap); every outcome is judged exactly like a sequential one.
 """
 import json
 
@@ -30,7 +33,7 @@ def run(c):
         else:
             raise vlib.Infra("the concat variant of SymCrypto no longer violates Sound:\n" + b.out[-2000:])
         trace = c.scratch + "/signed.ndjson"
-        c.run_driver(drv, ["-out", trace, "-n", 150 if c.thorough else 24])
+        c.run_driver(drv, ["-out", trace, "-n", 150 if c.thorough else 24, "-concurrent", 20 if c.thorough else 4])
     r = c.validate("SymCryptoTrace", "SymCryptoTrace.cfg", trace, timeout=1500)
     lines = _crypto.judge_cases(c, r, trace, vlib, whole_trace=_signs_and_line)
     ntr = nver = 0
